@@ -49,6 +49,8 @@ func lunarDigest(l *calendar.Lunar) string {
 	// value objects and lists handed out to the caller (must be the caller's own: see scribble)
 	fmt.Fprintf(h, "%s|%s|%s|%s|%s|%s|", callRender(l.GetShuJiu()), callRender(l.GetFu()), callRender(l.GetFestivals()), callRender(l.GetOtherFestivals()),
 		callRender(l.GetDayNineStar()), callRender(l.GetTime().GetNineStar()))
+	fmt.Fprintf(h, "%s|%s|%s|%s|%s|%s|", callRender(l.GetDayYi()), callRender(l.GetDayJi()), callRender(l.GetDayJiShen()), callRender(l.GetDayXiongSha()),
+		callRender(l.GetTimeYi()), callRender(l.GetTimeJi()))
 	for _, row := range termTable(l) {
 		fmt.Fprintf(h, "%v;", row)
 	}
